@@ -18,7 +18,7 @@ from vrf.oracle import validate
 from vrf.symx import sym
 
 B, Q = tys.Bool, tys.Qubit
-N_STEPS_KINDS = 13
+N_STEPS_KINDS = 14
 
 
 @native
@@ -111,7 +111,20 @@ def step(f, m, decl, g, kind, tag, bools, qubit, nodes):
             cfg.branch_exit(blk[0])
         qubit = cfg[0]
         nodes.append(cfg.parent_node)
-    else:              # explicit state order between two earlier sibling nodes
+    elif kind == 13:   # a wire crossing TWO region boundaries (into a case body of a conditional inside a nested DFG)
+        w = _pick(tag + ".w", bools)
+        with f.add_nested(qubit) as outer:
+            (qo,) = outer.inputs()
+            k1 = outer.load(val.TRUE)
+            with outer.add_conditional(k1, qo) as cond:
+                for j in range(2):
+                    with cond.add_case(j) as case:
+                        y = case.add_op(programs.cust(f"deep{j}", [B, Q], [Q]), w, *case.inputs())
+                        case.set_outputs(y[0])
+            outer.set_outputs(cond[0])
+        qubit = outer[0]
+        nodes.append(outer.parent_node)
+    else:              # (kind 12) explicit state order between two earlier sibling nodes
         if len(nodes) >= 2:
             i = sym.concretize(sym.int(tag + ".from", 0, len(nodes) - 2))
             f.add_state_order(nodes[i], nodes[-1])
@@ -123,9 +136,9 @@ def h_is_bool(f, n):
 
 
 @lemma("C01", params=[(k,) for k in range(N_STEPS_KINDS)],
-       bounds="module programs of 2 (quick) / 3 (thorough) builder steps inside a function over 13 step kinds (custom op with unused output, linear "
+       bounds="module programs of 2 (quick) / 3 (thorough) builder steps inside a function over 14 step kinds (custom op with unused output, linear "
               "threading, tuple ops, Tag, constants, call, load_function + CallIndirect, nested DFG with an Ext wire, conditional, if/else, tail loop, "
-              "CFG with a Dom wire, explicit state order); wires chosen by the solver; one task per first step; linear value consumed exactly once",
+              "CFG with a Dom wire, a wire crossing two region boundaries, explicit state order); wires chosen by the solver; one task per first step; linear value consumed exactly once",
        outside="longer programs; extension-delta / type-argument rules (not listed by the property)",
        opts={"max_paths": 200000, "timeout_s": 2500})
 def builder_programs_are_valid(first):
